@@ -121,7 +121,7 @@ std::string op_to_text(const Op &op) {
 std::string plan_to_text(const Plan &p) {
   std::ostringstream o;
   o << "yaepsim-plan 1\n";
-  o << "origin seed=" << p.seed << " mode=" << p.mode << "\n";
+  o << "origin seed=" << p.seed << " mode=" << p.mode << " focus=" << p.focus << "\n";
   o << "config knobs=" << p.cfg.knobs << " poison=" << (int)p.cfg.poison << " fpoison=" << (int)p.cfg.free_poison
     << " pad=" << p.cfg.pad << " quar=" << p.cfg.quarantine << " realloc=" << p.cfg.realloc_mode
     << " cache_skip=" << p.cfg.cache_skip << " selfcheck=" << p.cfg.selfcheck << " sink=" << p.cfg.sink
@@ -189,7 +189,7 @@ bool plan_from_text(const std::string &text, Plan *out, std::string *err) {
     std::string v;
     if (w[0] == "yaepsim-plan") continue;
     if (w[0] == "origin") {
-      for (auto &x : w) { if (kv(x, "seed", &v)) p.seed = strtoull(v.c_str(), nullptr, 10); if (kv(x, "mode", &v)) p.mode = v; }
+      for (auto &x : w) { if (kv(x, "seed", &v)) p.seed = strtoull(v.c_str(), nullptr, 10); if (kv(x, "mode", &v)) p.mode = v; if (kv(x, "focus", &v)) p.focus = atoi(v.c_str()); }
     } else if (w[0] == "config") {
       for (auto &x : w) {
         if (kv(x, "knobs", &v)) p.cfg.knobs = atoi(v.c_str());
